@@ -567,6 +567,15 @@ class FnArr(_Generic):
         kt = to_z3(k)
         self._guard(kt)
         val = self._val(v)
+        gs = list(getattr(ctx(), "guard_mode", None) or [])
+        rec = getattr(self, "recording", None)
+        if rec is not None:
+            rec.append((kt, gs, val))  # store inside a loop over all elements of a symbolic collection: lifted at loop exit (lift_stores)
+            return
+        if gs:
+            g = z3.And(*gs)
+            self.f = lambda i, old=old, kt=kt, val=val, g=g: z3.If(z3.And(g, i == kt), val, old(i))
+            return
         self.f = lambda i, old=old, kt=kt, val=val: z3.If(i == kt, val, old(i))
 
     # set protocol
@@ -604,6 +613,38 @@ def _split_conj(f):
     return [f]
 
 
+def lift_stores(arr, var, domain):
+    """`for e in C: ... arr[e] = v (under guards) ...` executed once for the generic element `var` of C (domain(var) holds): the effect of the
+    whole loop on arr is  arr'(i) = v  if some element e of C with its guards true has e == i, else arr(i).  For stores at the loop variable itself
+    this is  If(domain(i) and guards[var := i], v[var := i], arr(i)).  Requires: the loop visits every element once and the guards of element e read
+    arr only at e (reads see the state before the loop)."""
+    rec, arr.recording = arr.recording, None
+    old = arr.f
+    for kt, gs, val in rec:
+        if not kt.eq(var):
+            raise Unsupported("store at an index other than the loop element inside a loop over all elements")
+        g = z3.And(domain, *gs)
+        arr.f = (lambda i, old=arr.f, g=g, val=val: z3.If(z3.substitute(g, (var, i)), z3.substitute(val, (var, i)) if z3.is_expr(val) else val, old(i)))
+    return arr
+
+
+class AppendLog(FnArr):
+    """a list that is empty before an invariant loop and only appended to inside it: log(k) = something was appended in iteration k (at most once
+    per iteration); the appended values are recorded for the contract"""
+
+    def __init__(self, name):
+        FnArr.__init__(self, lambda i: z3.BoolVal(False), None, "Bool", name)
+        self.values = []
+
+    def append(self, v):
+        cx = ctx()
+        k = getattr(cx, "inv_k", None)
+        if k is None:
+            raise Unsupported("append to a logged list outside its invariant loop")
+        self.values.append((k, v, [e[0] for e in cx.pc]))
+        self[SV(k)] = True
+
+
 class InvSpec:
     """contract-side description of a loop verified by induction: program variables that the loop changes (state), ghost
     functions, the invariant as named clauses, and the ghost update"""
@@ -628,6 +669,10 @@ def run_invariant_loop(interp, st, env, n, bind_at, spec, label="loop"):
     objs = {}
     for v in spec.state:
         o = env.get(v) if env.has(v) else None
+        if isinstance(o, list) and o == [] and spec.state[v] == "Bool":
+            # an empty Python list that the loop only appends to: represented by the set of iteration numbers in which something was appended
+            o = AppendLog(v)
+            _set(env, v, o)
         if not isinstance(o, FnArr):
             raise Unsupported(f"invariant loop: state variable {v} is not an index-function array/set")
         objs[v] = o
@@ -648,6 +693,7 @@ def run_invariant_loop(interp, st, env, n, bind_at, spec, label="loop"):
     for v, o in objs.items():
         o.f = S[v]
     bind_at(env, k)
+    cx.inv_k = k
     try:
         interp.block(st.body, env)
     except Continue:
